@@ -216,6 +216,13 @@ def streams(ctx):
             for val in vals:
                 s = b"".join(message(i, pl, (field, val) if i == posn else None) for i, pl in enumerate(base))
                 out.append((f"corrupt-msg{posn}-{field}={val}", s, None, False))
+    # the same header twice (or three times) in a row, a later copy with one corrupted field: a reader that
+    # remembers the previous header must still validate the next one
+    for nrep in (2, 3):
+        for field, vals in (("protover", (0,)), ("mtype", (3,)), ("code", (11,)), ("length", (0, 7))):
+            for val in vals:
+                s = b"".join(message(5, 2, (field, val) if i == nrep - 1 else None) for i in range(nrep))
+                out.append((f"repeat{nrep}-{field}={val}", s, None, False))
     # long streams: cut positions restricted to a window around every boundary plus a 509-byte grid
     win = 17 if ctx.thorough else 3
     longs = [(255, 256, 4095, 4096, 0, 1, 255, 17)] if not ctx.thorough else [
